@@ -75,9 +75,22 @@ def split_assign(stmts: List[ast.stmt], namedtuples=None) -> List[ast.stmt]:
     for s in stmts:
         if namedtuples and isinstance(s, ast.Assign) and len(s.targets) == 1 and isinstance(s.targets[0], (ast.Tuple, ast.List)) \
                 and isinstance(s.value, ast.Call) and isinstance(s.value.func, ast.Name) and s.value.func.id in namedtuples \
-                and len(s.value.args) == len(namedtuples[s.value.func.id]) == len(s.targets[0].elts) and not s.value.keywords \
-                and not any(isinstance(a_, ast.Starred) for a_ in s.value.args):
-            s = ast.copy_location(ast.Assign([s.targets[0]], ast.Tuple(list(s.value.args), ast.Load())), s)
+                and len(namedtuples[s.value.func.id]) == len(s.targets[0].elts) \
+                and not any(isinstance(a_, ast.Starred) for a_ in s.value.args) and all(k.arg is not None for k in s.value.keywords):
+            # positional and / or keyword construction: the fields in declaration order (keyword values are evaluated in the order written;
+            # re-ordering them is only done when they are call-free)
+            fields = list(namedtuples[s.value.func.id])
+            vals = dict(zip(fields, s.value.args))
+            okc = len(s.value.args) <= len(fields)
+            for k in s.value.keywords:
+                if k.arg in vals or k.arg not in fields:
+                    okc = False
+                vals[k.arg] = k.value
+            in_order = [k.arg for k in s.value.keywords] == fields[len(s.value.args):]
+            pure_kw = all(not any(isinstance(x, ast.Call) and not (isinstance(x.func, ast.Name) and x.func.id in ("abs", "floor", "len", "float", "int"))
+                                  for x in ast.walk(k.value)) for k in s.value.keywords)
+            if okc and len(vals) == len(fields) and (in_order or pure_kw):
+                s = ast.copy_location(ast.Assign([s.targets[0]], ast.Tuple([vals[f] for f in fields], ast.Load())), s)
         if isinstance(s, ast.Assign) and len(s.targets) == 1 and isinstance(s.targets[0], (ast.Tuple, ast.List)) \
                 and isinstance(s.value, (ast.Tuple, ast.List)) and len(s.targets[0].elts) == len(s.value.elts) \
                 and not any(isinstance(e, ast.Starred) for e in s.targets[0].elts + s.value.elts):
@@ -1901,7 +1914,12 @@ def class_attr_constants(cls: ast.ClassDef, mod: Optional[ast.Module] = None) ->
             if isinstance(n, ast.Call) and isinstance(n.func, ast.Name) and n.func.id in ("setattr", "delattr"):
                 return {}
     out = {}
+    # annotated class attributes of a dataclass / NamedTuple / attrs class are per-instance fields, not class constants
+    fieldy = any(any(t in ast.unparse(d) for t in ("dataclass", "attr.s", "attrs", "define")) for c in chain for d in c.decorator_list) or \
+        any(ast.unparse(b).split(".")[-1] in ("NamedTuple", "BaseModel", "TypedDict") for c in chain for b in c.bases)
     for st in cls.body:
+        if isinstance(st, ast.AnnAssign) and isinstance(st.target, ast.Name) and st.value is not None and not fieldy:
+            st = ast.Assign([st.target], st.value)
         if isinstance(st, ast.Assign) and len(st.targets) == 1 and isinstance(st.targets[0], ast.Name) and st.targets[0].id not in stored:
             v = st.value
             if not any(isinstance(x, ast.Call) and not (isinstance(x.func, ast.Name) and x.func.id == "len") for x in ast.walk(v)) \
@@ -1925,6 +1943,98 @@ def subst_class_attrs(fn: ast.FunctionDef, consts: Dict[str, ast.expr]) -> ast.F
     out = T().visit(copy.deepcopy(fn))
     ast.fix_missing_locations(out)
     return out
+
+
+def property_exprs(cls: ast.ClassDef) -> Dict[str, ast.expr]:
+    """read-only properties of the class whose getter is one `return E` (E call-free): `self.p` is E (PROPERTY)"""
+    out = {}
+    setters = {ast.unparse(d).split(".")[0] for m in cls.body if isinstance(m, ast.FunctionDef) for d in m.decorator_list if ast.unparse(d).endswith(".setter")}
+    for m in cls.body:
+        if isinstance(m, ast.FunctionDef) and any(ast.unparse(d) in ("property", "functools.cached_property", "cached_property") for d in m.decorator_list) \
+                and m.name not in setters and len(m.args.args) == 1:
+            body = [b for b in m.body if not (isinstance(b, ast.Expr) and isinstance(b.value, ast.Constant))]
+            if len(body) == 1 and isinstance(body[0], ast.Return) and body[0].value is not None \
+                    and not any(isinstance(x, (ast.Call, ast.Lambda, ast.Await, ast.Yield)) for x in ast.walk(body[0].value)):
+                sp = m.args.args[0].arg
+
+                class S(ast.NodeTransformer):
+                    def visit_Name(self, n):
+                        return ast.copy_location(ast.Name("self", n.ctx), n) if n.id == sp else n
+                out[m.name] = S().visit(copy.deepcopy(body[0].value))
+    return out
+
+
+def rw_properties(cls: ast.ClassDef, constructors=()) -> Dict[str, Tuple[ast.expr, Optional[ast.expr]]]:
+    """properties of the class whose getter is one `return E` (E built from attribute reads and calls of the given pure constructors) and whose
+    setter, if any, is one assignment `TARGET = <the value>`:  name -> (E, TARGET or None).  Reading `self.name` is E; `self.name = v` is
+    `TARGET = v` (PROPERTY-RW)."""
+    getters, setters = {}, {}
+    for m in cls.body:
+        if not isinstance(m, ast.FunctionDef):
+            continue
+        decos = [ast.unparse(d) for d in m.decorator_list]
+        body = [b for b in m.body if not (isinstance(b, ast.Expr) and isinstance(b.value, ast.Constant))]
+        if "property" in decos and len(m.args.args) == 1 and len(body) == 1 and isinstance(body[0], ast.Return) and body[0].value is not None:
+            E = body[0].value
+            if all(isinstance(x.func, ast.Name) and x.func.id in constructors for x in ast.walk(E) if isinstance(x, ast.Call)) \
+                    and not any(isinstance(x, (ast.Lambda, ast.Await, ast.Yield)) for x in ast.walk(E)):
+                sp = m.args.args[0].arg
+                getters[m.name] = _rename(E, {sp: "self"})
+        elif any(d == f"{m.name}.setter" for d in decos) and len(m.args.args) == 2 and len(body) == 1 and isinstance(body[0], ast.Assign) \
+                and len(body[0].targets) == 1 and isinstance(body[0].value, ast.Name) and body[0].value.id == m.args.args[1].arg:
+            setters[m.name] = _rename(body[0].targets[0], {m.args.args[0].arg: "self"})
+        elif any(d == f"{m.name}.setter" for d in decos):
+            setters[m.name] = "opaque"
+    out = {}
+    for k, g in getters.items():
+        if setters.get(k) == "opaque":
+            continue
+        out[k] = (g, setters.get(k))
+    return out
+
+
+def _rename(node, m):
+    class S(ast.NodeTransformer):
+        def visit_Name(self, n):
+            return ast.copy_location(ast.Name(m[n.id], n.ctx), n) if n.id in m else n
+    return S().visit(copy.deepcopy(node))
+
+
+def subst_rw_properties(fn: ast.FunctionDef, table) -> ast.FunctionDef:
+    if not table:
+        return fn
+
+    class T(ast.NodeTransformer):
+        def visit_Attribute(self, n):
+            self.generic_visit(n)
+            if isinstance(n.value, ast.Name) and n.value.id == "self" and n.attr in table:
+                g, st = table[n.attr]
+                if isinstance(n.ctx, ast.Load):
+                    return ast.copy_location(copy.deepcopy(g), n)
+                if isinstance(n.ctx, ast.Store) and st is not None:
+                    return ast.copy_location(copy.deepcopy(st), n)
+            return n
+    out = T().visit(copy.deepcopy(fn))
+    ast.fix_missing_locations(out)
+    return out
+
+
+def subst_properties(node: ast.AST, props: Dict[str, ast.expr], depth=0) -> ast.AST:
+    if not props or depth > 4:
+        return node
+
+    class T(ast.NodeTransformer):
+        hit = False
+
+        def visit_Attribute(self, n):
+            self.generic_visit(n)
+            if isinstance(n.ctx, ast.Load) and isinstance(n.value, ast.Name) and n.value.id == "self" and n.attr in props:
+                T.hit = True
+                return ast.copy_location(copy.deepcopy(props[n.attr]), n)
+            return n
+    out = T().visit(copy.deepcopy(node))
+    ast.fix_missing_locations(out)
+    return subst_properties(out, props, depth + 1) if T.hit else out
 
 
 def expand_sibling_calls(node: ast.AST, mod: ast.Module):
@@ -2708,11 +2818,19 @@ def unroll_constant_tables(tree: ast.Module) -> int:
                 v = getattr(st, fld, None)
                 if isinstance(v, list) and v and all(isinstance(x, ast.stmt) for x in v) and not isinstance(st, (ast.FunctionDef, ast.ClassDef)):
                     setattr(st, fld, conv(v, shadow))
-            if isinstance(st, ast.For) and not st.orelse and isinstance(st.iter, ast.Name) and st.iter.id in tables and st.iter.id not in shadow and len(st.body) <= 15:
-                rows = tables[st.iter.id]
+            tname = None
+            if isinstance(st, ast.For) and isinstance(st.iter, ast.Name):
+                tname = st.iter.id if (st.iter.id in tables and st.iter.id not in shadow) else local_alias.get(st.iter.id)
+            if isinstance(st, ast.For) and not st.orelse and tname is not None and len(st.body) <= 15:
+                rows = tables[tname]
                 tg = [st.target] if isinstance(st.target, ast.Name) else (list(st.target.elts) if isinstance(st.target, (ast.Tuple, ast.List)) else None)
                 body = _restructure_continue(st.body)
-                if tg is not None and all(isinstance(t, ast.Name) for t in tg) and len(tg) == len(rows[0]) and body is not None \
+                reflect = tg is not None and all(isinstance(t, ast.Name) for t in tg) and any(
+                    isinstance(x, ast.Call) and isinstance(x.func, ast.Name) and x.func.id in ("getattr", "setattr", "hasattr") and len(x.args) >= 2
+                    and isinstance(x.args[1], ast.Name) and x.args[1].id in {t.id for t in tg} for b in st.body for x in ast.walk(b))
+                # only loops that use the table entries as attribute NAMES (reflection a static reading cannot follow) are unrolled; a loop over
+                # a constant table of plain values stays the loop it is
+                if reflect and len(tg) == len(rows[0]) and body is not None \
                         and not any(isinstance(x, ast.Name) and isinstance(x.ctx, ast.Store) and x.id in {t.id for t in tg} for b in body for x in ast.walk(b)) \
                         and not any(isinstance(x, (ast.Yield, ast.YieldFrom, ast.FunctionDef, ast.Lambda)) for b in body for x in ast.walk(b)):
                     names = [t.id for t in tg]
@@ -2728,18 +2846,270 @@ def unroll_constant_tables(tree: ast.Module) -> int:
                     continue
             out.append(st)
         return out
+    local_alias: Dict[str, str] = {}
     for f in ast.walk(tree):
         if isinstance(f, (ast.FunctionDef, ast.AsyncFunctionDef)):
             shadow = {a.arg for a in ast.walk(f.args) if isinstance(a, ast.arg)} | {x.id for x in ast.walk(f) if isinstance(x, ast.Name) and isinstance(x.ctx, ast.Store)}
+            # a local bound once to the table itself (`roles = _ROLE_TABLE`) reads the table
+            nst: Dict[str, int] = {}
+            for x in ast.walk(f):
+                if isinstance(x, ast.Name) and isinstance(x.ctx, ast.Store):
+                    nst[x.id] = nst.get(x.id, 0) + 1
+            local_alias.clear()
+            for a in ast.walk(f):
+                if isinstance(a, ast.Assign) and len(a.targets) == 1 and isinstance(a.targets[0], ast.Name) and nst.get(a.targets[0].id) == 1 \
+                        and isinstance(a.value, ast.Name) and a.value.id in tables and a.value.id not in shadow:
+                    local_alias[a.targets[0].id] = a.value.id
             f.body = conv(f.body, shadow)
     if n[0]:
         ast.fix_missing_locations(tree)
     return n[0]
 
 
+def unmatch(tree: ast.Module) -> int:
+    """MATCH (load time): a `match` whose cases are None / True / False, a class test `C()`, a value, the wildcard or a bare capture (optionally
+    guarded) is the if / elif chain PEP 634 defines it to be: `is` for singletons, isinstance for class patterns, == for values; a capture binds
+    the subject.  The subject is evaluated once (a name or attribute chain is used as it stands, anything else goes through a temporary)."""
+    if not hasattr(ast, "Match"):
+        return 0
+    n = [0]
+    k = [0]
+
+    def test_of(pat, subj):
+        """-> (test expr or None for irrefutable, [binding stmts]) or False when the pattern is not one of the simple forms"""
+        if isinstance(pat, ast.MatchSingleton):
+            return ast.Compare(copy.deepcopy(subj), [ast.Is()], [ast.Constant(pat.value)]), []
+        if isinstance(pat, ast.MatchValue):
+            return ast.Compare(copy.deepcopy(subj), [ast.Eq()], [pat.value]), []
+        if isinstance(pat, ast.MatchClass) and not pat.patterns and not pat.kwd_patterns:
+            return ast.Call(ast.Name("isinstance", ast.Load()), [copy.deepcopy(subj), pat.cls], []), []
+        if isinstance(pat, ast.MatchAs) and pat.pattern is None:
+            if pat.name is None:
+                return None, []
+            return None, [ast.Assign([ast.Name(pat.name, ast.Store())], copy.deepcopy(subj))]
+        if isinstance(pat, ast.MatchAs) and pat.pattern is not None and pat.name is not None:
+            r = test_of(pat.pattern, subj)
+            if r is False:
+                return False
+            return r[0], r[1] + [ast.Assign([ast.Name(pat.name, ast.Store())], copy.deepcopy(subj))]
+        if isinstance(pat, ast.MatchOr):
+            parts = [test_of(p_, subj) for p_ in pat.patterns]
+            if any(p_ is False or p_[1] or p_[0] is None for p_ in parts):
+                return False
+            return ast.BoolOp(ast.Or(), [p_[0] for p_ in parts]), []
+        return False
+
+    def conv(stmts):
+        out = []
+        for st in stmts:
+            for fld in ("body", "orelse", "finalbody"):
+                v = getattr(st, fld, None)
+                if isinstance(v, list) and v and all(isinstance(x, ast.stmt) for x in v):
+                    setattr(st, fld, conv(v))
+            if isinstance(st, ast.Try):
+                for h in st.handlers:
+                    h.body = conv(h.body)
+            if isinstance(st, ast.Match):
+                for c in st.cases:
+                    c.body = conv(c.body)
+                pre = []
+                subj = st.subject
+
+                def chain_ok(e):
+                    return isinstance(e, ast.Name) or (isinstance(e, ast.Attribute) and chain_ok(e.value))
+                if not chain_ok(subj):
+                    k[0] += 1
+                    tmp = f"match__{k[0]}"
+                    pre.append(ast.copy_location(ast.Assign([ast.Name(tmp, ast.Store())], subj), st))
+                    subj = ast.Name(tmp, ast.Load())
+                arms = []
+                ok = True
+                for c in st.cases:
+                    r = test_of(c.pattern, subj)
+                    if r is False:
+                        ok = False
+                        break
+                    t, binds = r
+                    if c.guard is not None:
+                        if binds:
+                            ok = False           # the guard may read the capture: keep the statement as it is
+                            break
+                        t = c.guard if t is None else ast.BoolOp(ast.And(), [t, c.guard])
+                    arms.append((t, binds + c.body))
+                    if t is None:
+                        break                    # irrefutable: later cases are unreachable
+                if ok and arms:
+                    node = None
+                    for t, body in reversed(arms):
+                        if t is None:
+                            node = body
+                        else:
+                            node = [ast.If(t, body, node or [])]
+                    out.extend(pre)
+                    for x in node:
+                        out.append(ast.copy_location(x, st))
+                    n[0] += 1
+                    continue
+            out.append(st)
+        return out
+    if not any(isinstance(x, ast.Match) for x in ast.walk(tree)):
+        return 0
+    for f in ast.walk(tree):
+        if isinstance(f, (ast.FunctionDef, ast.AsyncFunctionDef)):
+            f.body = conv(f.body)
+    ast.fix_missing_locations(tree)
+    return n[0]
+
+
+def class_attrs_at_load(tree: ast.Module) -> int:
+    """CLASS-ATTR (load time, after INHERIT): in a module-level class that has a base in the same module, `cls.X` / `self.X` of a class-body
+    constant X (never re-bound through self / cls anywhere in the class chain) is that constant; `<non-None constant> is None` is then False,
+    `None is None` True, the dead arm goes, and `list(<tuple display>)` is the list display.  (Declarative per-class tables read by shared base
+    methods become the per-class methods they stand for.)"""
+    classes = {c.name: c for c in tree.body if isinstance(c, ast.ClassDef)}
+    enums = {c.name for c in classes.values() if any(ast.unparse(b).split(".")[-1] in ("Enum", "IntEnum", "Flag", "StrEnum") for b in c.bases)}
+    n = 0
+
+    def not_none(e):
+        if isinstance(e, ast.Constant):
+            return e.value is not None
+        if isinstance(e, (ast.Tuple, ast.List, ast.Dict, ast.Set, ast.JoinedStr)):
+            return True
+        return isinstance(e, ast.Attribute) and isinstance(e.value, ast.Name) and e.value.id in enums
+
+    class Fold(ast.NodeTransformer):
+        def visit_Compare(self, c):
+            self.generic_visit(c)
+            if len(c.ops) == 1 and isinstance(c.ops[0], (ast.Is, ast.IsNot)) and isinstance(c.comparators[0], ast.Constant) and c.comparators[0].value is None:
+                if isinstance(c.left, ast.Constant) and c.left.value is None:
+                    return ast.copy_location(ast.Constant(isinstance(c.ops[0], ast.Is)), c)
+                if not_none(c.left):
+                    return ast.copy_location(ast.Constant(isinstance(c.ops[0], ast.IsNot)), c)
+            return c
+
+        def visit_Call(self, c):
+            self.generic_visit(c)
+            if isinstance(c.func, ast.Name) and c.func.id == "list" and len(c.args) == 1 and not c.keywords and isinstance(c.args[0], ast.Tuple) \
+                    and not any(isinstance(e, ast.Starred) for e in c.args[0].elts):
+                return ast.copy_location(ast.List(list(c.args[0].elts), ast.Load()), c)
+            return c
+
+    def prune(stmts):
+        out = []
+        for st in stmts:
+            for fld in ("body", "orelse", "finalbody"):
+                v = getattr(st, fld, None)
+                if isinstance(v, list) and v and all(isinstance(x, ast.stmt) for x in v) and not isinstance(st, (ast.FunctionDef, ast.ClassDef)):
+                    setattr(st, fld, prune(v) or ([ast.Pass()] if fld == "body" else []))
+            if isinstance(st, ast.If) and isinstance(st.test, ast.Constant) and isinstance(st.test.value, bool):
+                out.extend(st.body if st.test.value else st.orelse)
+                continue
+            out.append(st)
+        return out
+    for c in classes.values():
+        if not (len(c.bases) == 1 and isinstance(c.bases[0], ast.Name) and c.bases[0].id in classes):
+            continue
+        consts = class_attr_constants(c, tree)
+        if not consts:
+            continue
+        for i, m in enumerate(c.body):
+            if isinstance(m, ast.FunctionDef) and any(isinstance(x, ast.Attribute) and isinstance(x.value, ast.Name) and x.value.id in ("self", "cls")
+                                                     and x.attr in consts and isinstance(x.ctx, ast.Load) for x in ast.walk(m)):
+                new = subst_class_attrs(m, consts)
+                new = Fold().visit(new)
+                new.body = prune(new.body) or [ast.Pass()]
+                ast.fix_missing_locations(new)
+                c.body[i] = new
+                n += 1
+    return n
+
+
+def unsetdefault(tree: ast.Module) -> int:
+    """SETDEFAULT (load time): the statement `D.setdefault(k, v)` (result unused; k, v names / constants / attribute chains) is
+    `if k not in D: D[k] = v`"""
+    n = [0]
+
+    def simple(e):
+        return all(isinstance(x, (ast.Name, ast.Constant, ast.Attribute, ast.expr_context)) for x in ast.walk(e))
+
+    def conv(stmts):
+        out = []
+        for st in stmts:
+            for fld in ("body", "orelse", "finalbody"):
+                v = getattr(st, fld, None)
+                if isinstance(v, list) and v and all(isinstance(x, ast.stmt) for x in v):
+                    setattr(st, fld, conv(v))
+            if isinstance(st, ast.Expr) and isinstance(st.value, ast.Call) and isinstance(st.value.func, ast.Attribute) and st.value.func.attr == "setdefault" \
+                    and len(st.value.args) == 2 and not st.value.keywords and all(simple(a) for a in st.value.args) and simple(st.value.func.value):
+                D, (k, v) = st.value.func.value, st.value.args
+                out.append(ast.copy_location(ast.If(ast.Compare(k, [ast.NotIn()], [copy.deepcopy(D)]),
+                                                    [ast.Assign([ast.Subscript(copy.deepcopy(D), copy.deepcopy(k), ast.Store())], v)], []), st))
+                n[0] += 1
+                continue
+            out.append(st)
+        return out
+    if not any(isinstance(x, ast.Attribute) and x.attr == "setdefault" for x in ast.walk(tree)):
+        return 0
+    for f in ast.walk(tree):
+        if isinstance(f, (ast.FunctionDef, ast.AsyncFunctionDef)):
+            f.body = conv(f.body)
+    ast.fix_missing_locations(tree)
+    return n[0]
+
+
+def flatten_bases(tree: ast.Module) -> int:
+    """INHERIT (load time): a module-level class whose base is another module-level class of the same module (single inheritance, no metaclass
+    keyword) gets copies of the methods and plain class attributes it inherits and does not override -- what attribute lookup would find
+    anyway.  Inherited methods that call super() are left to the base.  Rules that read `cls.body` then see the whole class."""
+    classes = {c.name: c for c in tree.body if isinstance(c, ast.ClassDef)}
+    n = 0
+    done = set()
+
+    def members(c):
+        out = {}
+        for st in c.body:
+            if isinstance(st, (ast.FunctionDef, ast.AsyncFunctionDef)):
+                out[st.name] = st
+            elif isinstance(st, ast.Assign) and len(st.targets) == 1 and isinstance(st.targets[0], ast.Name):
+                out[st.targets[0].id] = st
+            elif isinstance(st, ast.AnnAssign) and isinstance(st.target, ast.Name):
+                out[st.target.id] = st
+        return out
+
+    def flatten(c):
+        nonlocal n
+        if c.name in done:
+            return
+        done.add(c.name)
+        if len(c.bases) != 1 or c.keywords or not isinstance(c.bases[0], ast.Name) or c.bases[0].id not in classes or c.bases[0].id == c.name:
+            return
+        base = classes[c.bases[0].id]
+        flatten(base)
+        own = members(c)
+        add = []
+        for name, st in members(base).items():
+            if name in own or (name.startswith("__") and name.endswith("__")):
+                continue
+            if isinstance(st, (ast.FunctionDef, ast.AsyncFunctionDef)) and any(isinstance(x, ast.Call) and isinstance(x.func, ast.Name) and x.func.id == "super" for x in ast.walk(st)):
+                continue
+            cp = copy.deepcopy(st)
+            cp._inherited_from = base.name
+            add.append(cp)
+        if add:
+            c.body = c.body + add
+            n += len(add)
+    for c in list(classes.values()):
+        flatten(c)
+    return n
+
+
 def canon_module(tree: ast.Module) -> ast.Module:
     """FORWARD + CMPDIR over every function of the module (in place); records the counts on the tree"""
     nf = 0
+    unmatch(tree)
+    flatten_bases(tree)
+    class_attrs_at_load(tree)
+    unsetdefault(tree)
     unroll_constant_tables(tree)
     for n in ast.walk(tree):
         if isinstance(n, (ast.FunctionDef, ast.AsyncFunctionDef)):
